@@ -7,6 +7,7 @@ GET_SP_MODEL = 'r0 == SP(s0)'
 GET_SP_MUT_MODEL = 'r0 == SP(s0) && SP(s1) == r1 && WIPED(s1) == WIPED(s0)'
 
 PRELUDE = r'''
+use vstd::std_specs::iter::*;
 /// the target is 64-bit (x86_64): needed for the i64 <-> usize casts of Stack::get_offset
 global size_of usize == 8;
 pub assume_specification<T: Clone + core::marker::Destruct> [<[T]>::clone_from_slice] (dst: &mut [T], src: &[T])
@@ -88,6 +89,19 @@ UNITS = [{
             'props': ['C04', 'C06'],
             'ensures': [(['C04'], '*r == old(self).sp_spec() && final(self).sp_spec() == *final(r) && final(self).cells() == old(self).cells()'),
                         (['C07'], GET_SP_MUT_MODEL.replace('WIPED', 'm_wiped').replace('SP', 'm_sp').replace('s1', '*final(self)').replace('s0', '*old(self)').replace('r0', '*r').replace('r1', '*final(r)'))],
+        },
+        # the root enumeration of the collector walks this iterator: it must yield exactly the live slots 0..=sp (C03: the top slot too)
+        'impl Stack::iter_to_sp': {
+            'props': ['C03', 'C06'],
+            'requires': ['self.wf()'],
+            'ensures': [(['C03'], 'r.remaining().len() == self.sp_spec() + 1'),
+                        (['C03'], 'forall|i: int| 0 <= i <= self.sp_spec() ==> *(#[trigger] r.remaining()[i]) == self.cells()[i]')],
+        },
+        # ... and mark_continuation walks every slot of a saved stack through this one
+        'impl Stack::iter': {
+            'props': ['C03', 'C05', 'C06'],
+            'ensures': [(['C03', 'C05'], 'r.remaining().len() == self.cells().len()'),
+                        (['C03', 'C05'], 'forall|i: int| 0 <= i < self.cells().len() ==> *(#[trigger] r.remaining()[i]) == self.cells()[i]')],
         },
         'impl Stack::pop': {
             'props': S5 + ['C06'],
